@@ -39,6 +39,7 @@ class Recorder:
         self.mvn = False         # record multivariate_normal arguments
         self.current_task = 0
         self.task_buf = {}
+        self.unparsed = False    # a pool call whose tasks could not be read: the API call's inside is not observable
 
     def emit(self, ev, **kw):
         kw["ev"] = ev
@@ -221,6 +222,52 @@ class ChildProxy:
         return getattr(self._g, name)
 
 
+def parse_task(t):
+    """What a pool task says about the rows it covers, whatever its container: the row selection ((lo, hi) pair or integer index
+    array), the task's start index, and the child generator if it carries one.  Fields are found by TYPE (and, for named tuples, by
+    telling field names) - not by position.  Returns None when the task cannot be understood (the call is then treated as one whose
+    inside cannot be observed, like a call run by worker processes)."""
+    try:
+        items = list(t._asdict().items()) if hasattr(t, "_asdict") else list(enumerate(t))
+    except TypeError:
+        return None
+    sel = rng = None
+    ints = []
+    for key, v in items:
+        if isinstance(v, np.random.Generator):
+            if rng is None:
+                rng = (key, v)
+        elif isinstance(v, tuple) and len(v) == 2 and all(isinstance(x, (int, np.integer)) and not isinstance(x, bool) for x in v):
+            if sel is None:
+                sel = (key, "range", v)
+        elif isinstance(v, (np.ndarray, list)) and np.ndim(v) == 1 and len(v) > 0 and np.issubdtype(np.asarray(v).dtype, np.integer):
+            if sel is None:
+                sel = (key, "idx", v)
+        elif isinstance(v, (int, np.integer)) and not isinstance(v, bool):
+            ints.append((key, int(v)))
+    if sel is None or not ints:
+        return None
+    named = [iv for iv in ints if isinstance(iv[0], str) and iv[0].lower() in ("start", "start_idx", "first", "task_id", "offset", "i0")]
+    start = (named or ints)[0][1]
+    d = {"start": start, "len": len(items)}
+    if sel[1] == "range":
+        d["kind"] = "range"
+        d["lo"], d["hi"] = int(sel[2][0]), int(sel[2][1])
+        d["sel"] = list(range(d["lo"] + 1, d["hi"] + 1))
+    else:
+        d["kind"] = "idx"
+        d["sel"] = [int(x) + 1 for x in np.asarray(sel[2])]
+    return d, rng
+
+
+def replace_field(t, key, value):
+    if hasattr(t, "_replace") and isinstance(key, str):
+        return t._replace(**{key: value})
+    lst = list(t)
+    lst[key] = value
+    return type(t)(lst) if isinstance(t, (tuple, list)) and not hasattr(t, "_fields") else tuple(lst)
+
+
 class RecPool:
     def __init__(self, rec, size=1, order_seed=0, wrap_children=True):
         self.rec = rec
@@ -239,25 +286,24 @@ class RecPool:
         self.ncalls += 1
         desc = []
         new_tasks = []
-        for k, t in enumerate(tasks):
-            sel = t[0]
-            d = {"start": int(t[1]), "len": len(t)}
-            if isinstance(sel, tuple):
-                d["kind"] = "range"
-                d["lo"], d["hi"] = int(sel[0]), int(sel[1])
-                d["sel"] = list(range(int(sel[0]) + 1, int(sel[1]) + 1))
-            else:
-                d["kind"] = "idx"
-                d["sel"] = [int(x) + 1 for x in np.asarray(sel)]
-            t = tuple(t)
-            if len(t) >= 6 and isinstance(t[5], np.random.Generator):
-                d["child"] = stream_id(t[5])
+        parsed = [parse_task(t) for t in tasks]
+        if any(p is None for p in parsed):
+            # tasks this harness cannot read: run them as they are; the call's inside counts as not observable
+            self.rec.unparsed = True
+            return [worker(t) for t in tasks]
+        has_rng = False
+        for k, (t, (d, rng)) in enumerate(zip(tasks, parsed)):
+            if rng is not None:
+                has_rng = True
+                d["child"] = stream_id(rng[1])
                 if self.wrap_children:
-                    t = t[:5] + (ChildProxy(t[5], self.rec, k + 1),) + t[6:]
+                    t = replace_field(t, rng[0], ChildProxy(rng[1], self.rec, k + 1))
             desc.append(d)
             new_tasks.append(t)
         fs = self.watch() if self.watch else {}
-        self.rec.emit("Map", call=self.ncalls, worker=getattr(worker, "__name__", str(worker)), tasks=desc, fs=fs)
+        # the kind of work is told by what the tasks carry (a generator: linear-parameter draws), not by the worker's name
+        kind = "make_full_samples_worker" if has_rng else "marginal_ln_likelihood_worker"
+        self.rec.emit("Map", call=self.ncalls, worker=kind, worker_name=getattr(worker, "__name__", str(worker)), tasks=desc, fs=fs)
         order = list(range(len(new_tasks)))
         self._rnd.shuffle(order)
         res = [None] * len(new_tasks)
@@ -337,15 +383,46 @@ def make_rec_helper_class():
     return RecHelper
 
 
+_current_rec = [None]
+
+
 def install_helper_factory(joker, rec):
-    """make `joker` build RecHelper objects bound to `rec` (patches the instance, not the repository)"""
+    """make `joker` build RecHelper objects bound to `rec` (patches the instance, not the repository).  Preferred hook: the
+    instance's _make_joker_helper; if TheJoker has no such method (renamed / inlined), the name CJokerHelper in thejoker.thejoker's
+    namespace is pointed at a recording subclass that binds itself to the current recorder; if neither exists the session's
+    evaluations are simply not observable."""
     from thejoker.data_helpers import validate_prepare_data
     cls = make_rec_helper_class()
+    if hasattr(type(joker), "_make_joker_helper"):
+        def _make(data):
+            rec.tick("make_helper")
+            all_data, ids, trend_M = validate_prepare_data(data, joker.prior.poly_trend, joker.prior.n_offsets)
+            h = cls(all_data, joker.prior, trend_M)
+            h._rec = rec
+            return h
+        joker._make_joker_helper = _make
+        return "method"
+    import thejoker.thejoker as tjm
+    if hasattr(tjm, "CJokerHelper"):
+        _current_rec[0] = rec
 
-    def _make(data):
-        rec.tick("make_helper")
-        all_data, ids, trend_M = validate_prepare_data(data, joker.prior.poly_trend, joker.prior.n_offsets)
-        h = cls(all_data, joker.prior, trend_M)
-        h._rec = rec
-        return h
-    joker._make_joker_helper = _make
+        class Bound(cls):
+            def __init__(self, *a, **k):
+                r = _current_rec[0]
+                if r is not None:
+                    r.tick("make_helper")
+                cls.__init__(self, *a, **k)
+                self._rec = r
+        tjm.CJokerHelper = Bound
+        return "class"
+    return None
+
+
+def make_helper(joker, data):
+    """a plain likelihood helper for (joker.prior, data), the way TheJoker makes it"""
+    if hasattr(joker, "_make_joker_helper"):
+        return joker._make_joker_helper(data)
+    from thejoker.data_helpers import validate_prepare_data
+    from thejoker.src.fast_likelihood import CJokerHelper
+    all_data, ids, trend_M = validate_prepare_data(data, joker.prior.poly_trend, joker.prior.n_offsets)
+    return CJokerHelper(all_data, joker.prior, trend_M)
